@@ -40,10 +40,12 @@ pub fn gen(tier: Tier, rng: &mut Rng) -> Vec<Sx> {
         let k = rng.range(1, 5);
         let mut prios: Vec<i64> = vec![i32::MIN as i64, -7, 0, 3, 10, i32::MAX as i64];
         rng.shuffle(&mut prios);
-        let engine = (i % 3) as u64;
+        // engine 3 = the incremental engine again, every action also issuing ActivateAgendaGroup (the focus moves to an empty
+        // group and falls back to MAIN at the next pop: the firings must be those of engine 2, and fire_all must still return)
+        let engine = (i % 4) as u64;
         let rules: Vec<Sx> = (0..k).map(|j| {
             // the incremental engine orders equal saliences by creation time, which depends on HashSet order: use distinct priorities there
-            let p = if engine == 2 { prios[j as usize] } else { *rng.pick(&[0i64, 0, 5, i32::MIN as i64, i32::MAX as i64]) };
+            let p = if engine >= 2 { prios[j as usize] } else { *rng.pick(&[0i64, 0, 5, i32::MIN as i64, i32::MAX as i64]) };
             Sx::l(vec![Sx::i(j as i64), Sx::i(p), Sx::b(rng.chance(1, 2)), Sx::b(rng.chance(3, 4))])
         }).collect();
         v.push(Sx::l(vec![Sx::n(1), Sx::n(engine), Sx::l(rules)]));
@@ -78,11 +80,12 @@ pub fn run_loop_direct(case: &Sx) -> (Sx, String) {
             for r in rules.as_l() { e.add_rule_with_action(format!("r{}", r.at(0).as_i()), node(r.at(3).as_b()), r.at(1).as_i() as i32, r.at(2).as_b(), |_, _| {}); }
             e.fire_all()
         }
-        _ => {
+        eng => {
             let mut e = IncrementalEngine::new();
+            let focus_action = eng == 3;
             for r in rules.as_l() {
                 e.add_rule(TypedReteUlRule { name: format!("r{}", r.at(0).as_i()), node: node(r.at(3).as_b()), priority: r.at(1).as_i() as i32,
-                    no_loop: r.at(2).as_b(), action: Arc::new(|_, _| {}) }, vec!["T".to_string()]);
+                    no_loop: r.at(2).as_b(), action: Arc::new(move |_, results| { if focus_action { results.add(rust_rule_engine::rete::ActionResult::ActivateAgendaGroup("phase2".to_string())); } }) }, vec!["T".to_string()]);
             }
             let mut f = TypedFacts::new(); f.set("a", 1i64);
             e.insert("T".to_string(), f);
@@ -94,7 +97,7 @@ pub fn run_loop_direct(case: &Sx) -> (Sx, String) {
 }
 
 pub fn run(case: &Sx) -> (Sx, String) {
-    if case.at(0).as_u() == 1 { return crate::run_in_child("C07", case, 30); }
+    if case.at(0).as_u() == 1 { return crate::run_in_child("C07", case, 10); }
     let mut ag = AdvancedAgenda::new();
     let mut last: Option<Activation> = None;
     let mut obs = vec![]; let (mut nnext, mut nsome) = (0, 0);
